@@ -66,6 +66,20 @@ CHECKS["C19"] = dict(level="model_checking", design="5 C19", technique=_PANEL_TE
          "entry of Panel.calc_kA / calc_cA (both flows, flat, w-only and cylindrical models). The curvature part mirrored with the "
          "wrong sign is the named deviation KF_C19_GammaPartSkewed (known finding).")
 
+CHECKS["C11"] = dict(level="model_checking", design="5 C11", technique=_PANEL_TECH, note=_PANEL_NOTE,
+    text="Displacements, rotations, strains (with/without von Karman terms) and stress resultants at rational points are "
+         "evaluated exactly by TLC from the same series and kinematic table the stiffness is derived from and compared value "
+         "by value with Panel.uvw/strain/stress; the harness additionally records that results are bit-identical for thread "
+         "counts 1,2,5,16, for a permuted and for a truncated point list and that the amplitude vector is not modified (flags "
+         "judged by the trace spec). The term-wise squaring of the non-linear terms is the named deviation "
+         "KF_C11_NLTermwiseSquares (known finding, .pyx); the ignored NLterms flag of Panel.stress was repaired (fix: commit).")
+CHECKS["C07"] = dict(level="model_checking", design="5 C07", technique=_PANEL_TECH, note=_PANEL_NOTE,
+    text="The load vector is defined in the specification as the virtual work of the point forces against the unit-amplitude "
+         "displacement fields (TLC invariant VirtualWork ties it to the field module), with incrementable forces scaled by "
+         "the load factor; Panel.calc_fext (placements, load factors) is judged entry by entry. For the linear static "
+         "solution TLC evaluates the exact backward-error criterion |K c - f| <= 2^-30 (|K||c| + |f|) row by row with its own "
+         "exact K and f, and requires exact zeros on amplitudes without stiffness. Assemblies and bays: see C13.")
+
 NOT_YET = {}
 
 NA = {
